@@ -88,15 +88,17 @@ theorem applyRes_offCfg (cfg : Cfg) (pol : Policy) (step : Nat) (hs : cfg.hasSte
     split
     · exact h
     · split
+      · exact h
       · split
-        · exact h
+        · split
+          · exact h
+          · exact h.of_workers rfl
         · exact h.of_workers rfl
-      · exact h.of_workers rfl
-    · split
       · split
-        · exact h
+        · split
+          · exact h
+          · exact h.of_workers rfl
         · exact h.of_workers rfl
-      · exact h.of_workers rfl
   | addCollected buf ev =>
     simp only [applyRes]
     split
